@@ -628,6 +628,8 @@ def run(chk, replay=None):
                 # which branch did the code take?  phase 0 / pi/2 are the two special branches
                 php = S.simplify(ck.phase)
                 gbranch = 'y0' if php == 0 else ('x0' if php == S.pi / 2 else 'gen')
+                # SymPy may have collapsed the two terms into one (sin(wt + pi) = -sin(wt)): then the code never reaches the sum table
+                nterms = len(S.exptrigsimp(e.rewrite(S.cos)).expand().as_ordered_terms())
                 chk.count('conversion', 'acchecker-sum-branch-' + rep[0])
                 desc = str(e)
                 if want == (0, 0):
@@ -637,7 +639,7 @@ def run(chk, replay=None):
                 ok = got == want
                 # the branch itself is compared when the cancellation is structural (forms 1-3), i.e. the same for the
                 # symbolic expression the code sees and for the numbers the model sees
-                if ok and form in (1, 2, 3) and gbranch != rep[0]:
+                if ok and form in (1, 2, 3) and nterms == 2 and gbranch != rep[0]:
                     ok = False
             chk.coverage['correspondence']['compared'] += 1
             if not ok:
